@@ -92,6 +92,8 @@ pub struct StepInfo {
     pub steps: u32,
     /// bus addresses accessed in order (one entry per accessing micro-step), including the opcode fetch
     pub acc: [u8; MAX_ACC],
+    /// kind of each access: 0 opcode / second-opcode fetch, 1 read, 2 write
+    pub acc_kind: [u8; MAX_ACC],
     pub nacc: usize,
     /// the end of this instruction samples (and clears) the key flip-flop
     pub samples: bool,
@@ -121,6 +123,7 @@ impl StepInfo {
             op2: None,
             steps: 0,
             acc: [0; MAX_ACC],
+            acc_kind: [0; MAX_ACC],
             nacc: 0,
             samples: true,
             completes: true,
@@ -315,6 +318,7 @@ impl Ref {
     fn rd(&mut self, a: u8, io: &IoHint, info: &mut StepInfo) -> u8 {
         if info.nacc < MAX_ACC {
             info.acc[info.nacc] = a;
+            info.acc_kind[info.nacc] = if info.nacc == 0 { 0 } else { 1 };
             info.nacc += 1;
         }
         if a >= 0xF4 && a <= 0xFB {
@@ -339,6 +343,7 @@ impl Ref {
     fn wr(&mut self, a: u8, v: u8, info: &mut StepInfo) {
         if info.nacc < MAX_ACC {
             info.acc[info.nacc] = a;
+            info.acc_kind[info.nacc] = 2;
             info.nacc += 1;
         }
         if a <= 0xEF && info.nwrites < 4 {
@@ -818,6 +823,7 @@ impl Ref {
         info.steps += 1;
         let pc = self.r[3];
         let op2 = self.rd(pc, io, info);
+        info.acc_kind[info.nacc - 1] = 0;
         info.op2 = Some(op2);
         self.set_pc(pc.wrapping_add(1), info);
         if op2 == 0x00 {
